@@ -55,6 +55,24 @@ def case_strategy(tier):
                     if "t" in n:
                         n["layout"] = L[pick]
                 c["layouts"] = True
+                if w == "webvtt" and draw(st.booleans()):
+                    # "-->" formed by two adjacent text nodes in a group that is followed by a
+                    # group positioned elsewhere
+                    ti = [k for k, n in enumerate(c["nodes"]) if "t" in n]
+                    if ti and c["lines"] and c["nodes"][ti[0]]["t"] == c["lines"][0]:
+                        first = c["nodes"][ti[0]]
+                        cut = draw(st.sampled_from(["-|->", "--|>", "-|-|>"]))
+                        parts = ("x " + cut + " y").split("|")
+                        c["nodes"][ti[0]:ti[0] + 1] = [{"t": p_, "layout": first.get("layout")} for p_ in parts]
+                        c["lines"][0] = "x --> y"
+                        c["multi"] = True
+                        other = L[1] if first.get("layout") == L[0] else L[0]
+                        seen_br = False
+                        for n in c["nodes"]:
+                            if "br" in n:
+                                seen_br = True
+                            elif "t" in n and seen_br:
+                                n["layout"] = other
         case = {"writer": w, "set": s}
         if draw(st.integers(0, 3)) == 0:
             case["prev"] = draw(gen.simple_set(ln, 1, 2, gen.HOUR, min_dur=gen.SEC, empty_lines=False))
